@@ -174,3 +174,96 @@ def item_sensor_wildcards(repo, out):
 
 
 ITEMS.append(item_sensor_wildcards)
+
+
+# ---------------------------------------------------------------------------------------------------------------
+# Built-in virtual sensors: the registries (dataset.DEFAULT_VIRTUAL_SENSORS and the VIRTUAL_SENSORS of every format
+# module) and WHAT the registered functions read from the cache.  The model (Model/SensorVirt.v) gives a virtual
+# sensor function the values of its source sensors and the dump timestamps, nothing else; the item checks that the
+# first parameter `cache` of every registered function is only ever used as `cache.<attr>` / `cache[...]` and emits
+# the set of attributes, so that a function that starts reading e.g. `cache.dump_period` (values depending on the
+# nominal dump spacing instead of the timestamps) breaks a stated theorem.
+VIRT_REGISTRIES = [('katdal/dataset.py', 'DEFAULT_VIRTUAL_SENSORS'), ('katdal/h5datav1.py', 'VIRTUAL_SENSORS'),
+                   ('katdal/h5datav2.py', 'VIRTUAL_SENSORS'), ('katdal/h5datav3.py', 'VIRTUAL_SENSORS'),
+                   ('katdal/visdatav4.py', 'VIRTUAL_SENSORS')]
+
+
+def _dict_entries(node, what):
+    if not (isinstance(node, ast.Dict) and all(isinstance(k, ast.Constant) and isinstance(k.value, str) for k in node.keys)
+            and all(isinstance(v, ast.Name) for v in node.values)):
+        raise TranslateError('%s: not a dict literal {"template": function_name, ...}' % what)
+    return [(k.value, v.id) for k, v in zip(node.keys, node.values)]
+
+
+def _registry(tree, var, rel):
+    """[(template, function name)] added by this module to its registry `var`"""
+    entries, seen = [], False
+    for n in tree.body:
+        if isinstance(n, ast.Assign) and len(n.targets) == 1 and isinstance(n.targets[0], ast.Name) and n.targets[0].id == var:
+            if seen:
+                raise TranslateError('%s: %s assigned more than once' % (rel, var))
+            seen = True
+            v = n.value
+            if isinstance(v, ast.Dict):
+                entries += _dict_entries(v, '%s:%s' % (rel, var))
+            elif not (isinstance(v, ast.Call) and isinstance(v.func, ast.Name) and v.func.id == 'dict' and len(v.args) == 1
+                      and not v.keywords and isinstance(v.args[0], ast.Name) and v.args[0].id == 'DEFAULT_VIRTUAL_SENSORS'):
+                raise TranslateError('%s: %s is neither a dict literal nor dict(DEFAULT_VIRTUAL_SENSORS)' % (rel, var))
+        elif isinstance(n, ast.Expr) and isinstance(n.value, ast.Call) and isinstance(n.value.func, ast.Attribute) \
+                and isinstance(n.value.func.value, ast.Name) and n.value.func.value.id == var:
+            c = n.value
+            if not (seen and c.func.attr == 'update' and len(c.args) == 1 and not c.keywords):
+                raise TranslateError('%s: unexpected call %s.%s(...)' % (rel, var, c.func.attr))
+            entries += _dict_entries(c.args[0], '%s:%s.update' % (rel, var))
+        else:
+            for m in ast.walk(n):
+                if isinstance(m, ast.Name) and m.id == var and isinstance(m.ctx, (ast.Store, ast.Del)):
+                    raise TranslateError('%s: %s is modified in an unexpected place (line %d)' % (rel, var, m.lineno))
+    if not seen:
+        raise TranslateError('%s: %s not found' % (rel, var))
+    return entries
+
+
+def _cache_uses(fn, rel):
+    """the ways the first parameter of a virtual sensor function is used: attribute names, getitem/setitem/delitem"""
+    if not fn.args.args or fn.args.args[0].arg != 'cache':
+        raise TranslateError('%s:%s: first parameter is not `cache`' % (rel, fn.name))
+    parent = {}
+    for p in ast.walk(fn):
+        for ch in ast.iter_child_nodes(p):
+            parent[ch] = p
+    uses = set()
+    for n in ast.walk(fn):
+        if isinstance(n, ast.arg) and n.arg == 'cache' and n is not fn.args.args[0]:
+            raise TranslateError('%s:%s: `cache` is rebound by an inner function' % (rel, fn.name))
+        if not (isinstance(n, ast.Name) and n.id == 'cache'):
+            continue
+        p = parent.get(n)
+        if not isinstance(n.ctx, ast.Load):
+            raise TranslateError('%s:%s: `cache` is reassigned (line %d)' % (rel, fn.name, n.lineno))
+        if isinstance(p, ast.Attribute) and p.value is n:
+            if not isinstance(p.ctx, ast.Load):
+                raise TranslateError('%s:%s: cache.%s is assigned to (line %d)' % (rel, fn.name, p.attr, n.lineno))
+            uses.add(p.attr)
+        elif isinstance(p, ast.Subscript) and p.value is n:
+            uses.add({ast.Load: 'getitem', ast.Store: 'setitem', ast.Del: 'delitem'}[type(p.ctx)])
+        else:
+            raise TranslateError('%s:%s: `cache` is used as a whole (line %d), cannot tell what is read from it'
+                                 % (rel, fn.name, n.lineno))
+    return uses
+
+
+def item_virtual_sensors(repo, out):
+    templates, funcs, attrs = set(), set(), set()
+    for rel, var in VIRT_REGISTRIES:
+        tree = _parse(repo, rel)
+        for template, fname in _registry(tree, var, rel):
+            templates.add(template)
+            funcs.add(fname)
+            attrs |= _cache_uses(_find_func(tree, fname, rel), rel)
+    out.append('Definition virtual_sensor_templates : list string := %s.' % coq_strings(tuple(sorted(templates))))
+    out.append('Definition virtual_sensor_funcs : list string := %s.' % coq_strings(tuple(sorted(funcs))))
+    out.append('Definition virtual_cache_attrs : list string := %s.' % coq_strings(tuple(sorted(attrs))))
+
+
+ITEMS.append(item_virtual_sensors)
